@@ -4,8 +4,8 @@
    says: booleans and counts are equal, result lists are permutations of each
    other, and a predicate listing x lists at least the predicates of y. *)
 From Coq Require Import List ZArith Bool Permutation.
-From MV Require Import Store.AMap Store.SetSpec Store.Generic Store.Simple Store.Indexed Store.MultiIndexedArray
-  Store.Wrappers Store.GenericProofs Store.SimpleProofs Store.WrappersProofs Store.StoreTheorems.
+From MV Require Import Store.AMap Store.SetSpec Store.Generic Store.Simple Store.Indexed Store.MultiIndexed Store.MultiIndexedArray
+  Store.Wrappers Store.GenericProofs Store.SimpleProofs Store.ArrayProofs Store.IndexedProofs Store.MultiProofs Store.WrappersProofs Store.StoreTheorems.
 Import ListNotations.
 Open Scope Z_scope.
 
@@ -53,6 +53,35 @@ Proof.
   repeat (destruct Hb as [<-|Hb]; [|]); try contradiction; vm_compute; congruence.
 Qed.
 
+(* IndexedInMemoryStore and MultiIndexedInMemoryStore: keyed by Atom.Hash() like
+   the simple store (nothing compares atoms), so for ALL atom-hash and
+   constant-hash functions and ALL histories in which no two distinct atoms
+   have equal atom hashes. Collisions of the constant hashes (the argument
+   index) are harmless. ListPredicates is "lists at least" (finding N8: these
+   stores keep emptied shards, see listpreds_after_remove_refuted). *)
+Theorem indexed_refines_set :
+  forall (hash : atom -> Z) (chash : Z -> Z) (h : list op),
+    (forall a b, In a (history_atoms h) -> In b (history_atoms h) -> hash a = hash b -> a = b) ->
+    Forall2 out_covers (run (g_step (indexed_impl hash chash)) g_empty h) (run s_step [] h).
+Proof. exact indexed_refines. Qed.
+Print Assumptions indexed_refines_set.
+Theorem multi_refines_set :
+  forall (hash : atom -> Z) (chash : Z -> Z) (h : list op),
+    (forall a b, In a (history_atoms h) -> In b (history_atoms h) -> hash a = hash b -> a = b) ->
+    Forall2 out_covers (run (g_step (multi_impl hash chash)) g_empty h) (run s_step [] h).
+Proof. exact multi_refines. Qed.
+Print Assumptions multi_refines_set.
+(* the hypothesis is collision_free_satisfiable above, with a constant-hash
+   function that collides everywhere *)
+Example indexed_multi_hypothesis_satisfiable :
+  let hash := fun a : atom => fst a * 1000 + fold_right Z.add 0 (snd a) in
+  let h := [Add (0, [1]); Add (0, [2]); Remove (0, [1]); Query (0, [None]); Merge [(1, [1; 2]); (0, [2])]] in
+  Forall2 out_covers (run (g_step (multi_impl hash (fun _ => 0))) g_empty h) (run s_step [] h) /\
+  Forall2 out_covers (run (g_step (indexed_impl hash (fun _ => 0))) g_empty h) (run s_step [] h).
+Proof.
+  intros hash h. split; [apply multi_refines|apply indexed_refines]; exact collision_free_satisfiable.
+Qed.
+
 (* F8: whenever two distinct atoms of one predicate have equal hashes - whatever
    the hash function - the simple store is not a set: the second Add reports
    "already there". *)
@@ -63,24 +92,30 @@ Theorem simple_collision_refuted :
 Proof. exact simple_collision. Qed.
 Print Assumptions simple_collision_refuted.
 
-(* MultiIndexedArrayInMemoryStore. Full statement intended (array_refines_set):
-     forall (hash : atom -> Z) (chash : Z -> Z) (h : list op),
-       Forall2 out_covers (run (g_step (array_impl hash chash)) g_empty h) (run s_step [] h)
-   (no condition on the hash functions: the store compares atoms inside a hash
-   bucket). It follows from inmemory_store_refines_set_if_its_shards_do once
-   shard_ok is shown for array_impl with ok2 := fun _ _ => True; that shard proof
-   (three nested maps, one copy of the set per argument position) is not
-   finished. Proved part: the statement on a finite domain that forces every
-   collision pattern - the three atoms p(0,1), p(1,1), p(1,0), atom hashes all
-   equal / two equal / all different, constant hashes equal / different, every
-   history of up to 3 operations out of 16 (add, remove, contains of each atom,
-   four patterns, count, predicates, a merge). *)
-Theorem array_refines_set_partial :
+(* MultiIndexedArrayInMemoryStore (the engine's delta store and the output store
+   of every TeeingStore): for ALL atom-hash and constant-hash functions and ALL
+   histories the store answers as the set machine. No condition on the hash
+   functions: the store compares atoms inside a hash bucket. (ListPredicates is
+   "lists at least": the store keeps emptied shards, finding N8, see
+   listpreds_after_remove_refuted.) *)
+Theorem array_refines_set :
+  forall (hash : atom -> Z) (chash : Z -> Z) (h : list op),
+    Forall2 out_covers (run (g_step (array_impl hash chash)) g_empty h) (run s_step [] h).
+Proof. exact array_refines. Qed.
+Print Assumptions array_refines_set.
+(* the array shard meets the hypothesis of the lifting with the trivial side condition *)
+Example array_shard_ok_holds :
+  forall hash chash, shard_ok (array_impl hash chash) (a_elems) (a_WF hash chash) (fun _ _ => True).
+Proof. exact array_shard_ok. Qed.
+(* a test of the model, not a theorem: the same statement evaluated on a finite
+   domain that forces every collision pattern - the three atoms p(0,1), p(1,1),
+   p(1,0), atom hashes all equal / two equal / all different, constant hashes
+   equal / different, every history of up to 3 operations out of 16. *)
+Example array_collision_sweep :
   forall hv cv h, In hv u_hashes -> In cv u_chashes -> In h u_hists ->
     all2 out_coversb (run (g_step (array_impl (fun a => tbl hv (atom_ix a)) (tbl cv))) g_empty h)
                      (run s_step [] h) = true.
 Proof. exact array_small. Qed.
-Print Assumptions array_refines_set_partial.
 
 (* N8 (listpreds_partial): an in-memory store in the refinement relation R with
    the set s (R is what every operation preserves, see the lifting) lists at
